@@ -577,6 +577,19 @@ def run(ctx):
         mu = [dy(rng, -3, 3) for _ in range(dim)] if k % 4 else [0.0] * dim
         x = [dy(rng, -4, 4, 8) for _ in range(dim)]
         mcases.append(("gmrf", pd, order, bc, n, prec, x, mu))
+    # non-zero CONSTANT mean/location (scalar form broadcast over the geometry, and constant-vector form), every
+    # BC, 1-D and 2-D: a constant shift is annihilated by the periodic/neumann operators but NOT by the zero-BC one
+    for fam_ in ("cmrf", "gmrf"):
+        for pd in (1, 2):
+            for bc in ("zero", "periodic", "neumann"):
+                for form_ in ("scalar", "vector"):
+                    for rep in range(S):
+                        n = rng.choice([3, 4, 5] if pd == 1 else [3, 4])
+                        dim = n if pd == 1 else n * n
+                        cst = rng.choice([-2.5, -1.0, 0.5, 1.5, 3.0])
+                        mu = [cst] if form_ == "scalar" else [cst] * dim
+                        x = [dy(rng, -4, 4, 8) for _ in range(dim)]
+                        mcases.append((fam_, pd, 1, bc, n, rng.choice([0.5, 1.0, 2.0]), x, mu))
     for k in range(45 * S):
         pd = 1 if k % 3 else 2
         bc = rng.choice(["zero", "periodic", "neumann"])
@@ -597,12 +610,15 @@ def run(ctx):
         dim = n if pd == 1 else n * n
         desc = {"family": fam, "pd": pd, "order": order, "bc": bc, "n": n, "par": par, "x": x, "loc": mu}
         ctx.case(f"{fam}{pd}D", desc)
-        kw = {} if pd == 1 else {"geometry": G.Image2D((n, n))}
+        kw = {"geometry": n} if pd == 1 else {"geometry": G.Image2D((n, n))}
         nz = "location-nonzero" if any(v != 0 for v in mu) else "location-zero"
+        if any(v != 0 for v in mu) and len(set(mu)) == 1:
+            nz = "location-constant-" + ("scalar" if len(mu) == 1 else "vector")
         key = f"{fam.upper()}:{pd}D:{bc}:order{order}:{nz}"
         try:
             with quiet():
-                dist = D.GMRF(np.array(mu), par, bc_type=bc, order=order, **kw) if fam == "gmrf" else D.CMRF(np.array(mu), par, bc_type=bc, **kw)
+                loc_ = float(mu[0]) if len(mu) == 1 else np.array(mu)
+                dist = D.GMRF(loc_, par, bc_type=bc, order=order, **kw) if fam == "gmrf" else D.CMRF(loc_, par, bc_type=bc, **kw)
         except Exception as e:  # noqa
             ctx.note(f"constructor refused {desc}: {e!r}"[:160]); continue
         xa = np.array(x, dtype=float)
@@ -619,9 +635,10 @@ def run(ctx):
             ctx.disagree(key + ":grad-ne-deriv", desc, mg, val.tolist(), "gradient differs from the model")
         if fam == "gmrf":
             # the GMRF constant can be NaN (C20 finding: order-2 neumann): use differences of the quadratic part via _prec_op
-            logd = lambda z: -0.5 * par * float((z - np.array(mu)) @ (dist._prec_op @ (z - np.array(mu))))
+            mu_full = np.array(mu, dtype=float) * np.ones(dim)
+            logd = lambda z: -0.5 * par * float((z - mu_full) @ (dist._prec_op @ (z - mu_full)))
             with quiet():
-                l_x, l_m = float(dist.logd(xa)), float(dist.logd(np.array(mu, dtype=float)))
+                l_x, l_m = float(dist.logd(xa)), float(dist.logd(mu_full))
             if math.isfinite(l_x) and math.isfinite(l_m):
                 logd = dist.logd
                 if not close(l_x - l_m, -dec(mtoks[1]) / 2, 1e-8):
@@ -1083,3 +1100,85 @@ def run(ctx):
             oracle_value(ctx, key, desc, f_logd, val, xs, tol=(2e-4 if fd else ORTOL), in_support=True)
         elif st in ("none", "not-vector", "nan"):
             ctx.fail(key, desc, "refusal (or the derivative)", st, "neither a gradient vector nor a refusal")
+
+    # ======================================================================= 8. Image2D DOMAIN geometries on the model path
+    # order 'C' and 'F', square and non-square images.  The forward map acts on the IMAGE (function values); the
+    # gradient callable returns either an image-shaped array (function values: Model.gradient must map it back with
+    # the geometry's fun2par, i.e. flatten by `order`) or a flat array already in parameter order.
+    # Lean model: `likimg` = chain rule with G = the permutation matrix of Image2D.par2fun (`image2dJac`).
+    SHAPES = [(2, 3), (3, 2), (2, 4), (2, 2), (3, 3), (4, 2)]
+    IKINDS = ["gradient-image", "gradient-flat", "jacobian-flat", "adjoint-image", "adjoint-flat", "matrix-flat"]
+    ITARGETS = ["model", "likelihood", "posterior"]
+    ilines, imeta, iorc = [], [], []
+    for k in range(36 * S):
+        h, w = SHAPES[k % len(SHAPES)]
+        order = "F" if (k // 2) % 2 == 0 else "C"
+        ik = IKINDS[(k // 3) % len(IKINDS)]
+        tgt = ITARGETS[(k // 4) % len(ITARGETS)]
+        n = h * w; m = rng.choice([1, 2, 3])
+        desc = {"image2d": [h, w], "order": order, "model": ik, "target": tgt, "m": m}
+        ctx.case("image2d-domain", desc)
+        key = f"image2d:{order}:{'square' if h == w else 'nonsquare'}:{ik}:{tgt}"
+        Fp, Jp, lin, A = rand_forward(m, n)               # on the PARAMETER vector x; image Z = x.reshape((h,w), order)
+        if ik.startswith(("adjoint", "matrix")):
+            Fp, Jp = (lambda x, A=A: A @ x), (lambda x, A=A: A)
+        flat = lambda Z, order=order: np.asarray(Z).ravel(order=order)          # = Image2D.fun2par
+        img = lambda v, h=h, w=w, order=order: np.asarray(v).reshape((h, w), order=order)
+        fwd = lambda Z, Fp=Fp, flat=flat: Fp(flat(Z))
+        try:
+            with quiet():
+                dgeo = G.Image2D((h, w), order=order)
+                if ik == "gradient-image":
+                    mod = Model(fwd, m, dgeo, gradient=lambda direction, wrt, Jp=Jp, flat=flat, img=img: img(direction @ Jp(flat(wrt))))
+                elif ik == "gradient-flat":
+                    mod = Model(fwd, m, dgeo, gradient=lambda direction, wrt, Jp=Jp, flat=flat: direction @ Jp(flat(wrt)))
+                elif ik == "jacobian-flat":
+                    mod = Model(fwd, m, dgeo, jacobian=lambda wrt, Jp=Jp, flat=flat: Jp(flat(wrt)))
+                elif ik == "adjoint-image":
+                    mod = LinearModel(fwd, adjoint=lambda y, A=A, img=img: img(A.T @ y), range_geometry=m, domain_geometry=dgeo)
+                elif ik == "adjoint-flat":
+                    mod = LinearModel(fwd, adjoint=lambda y, A=A: A.T @ y, range_geometry=m, domain_geometry=dgeo)
+                else:
+                    # a matrix acts on the flat parameter vector only if par2fun is bypassed: give the matrix a function face
+                    mod = LinearModel(lambda Z, A=A, flat=flat: A @ flat(Z), adjoint=lambda y, A=A: A.T @ y, range_geometry=m, domain_geometry=dgeo)
+                xs = np.array([dy(rng, -2, 2, 4) for _ in range(n)])
+                cv = np.array([rng.choice([0.5, 1.0, 2.0]) for _ in range(m)])
+                data = np.array([dy(rng, -3, 3) for _ in range(m)])
+                dirv = np.array([dy(rng, -2, 2) for _ in range(m)])
+                extra = np.zeros(n)
+                if tgt == "model":
+                    call = lambda: mod.gradient(dirv, xs)
+                    scalar = lambda z: float(np.dot(dirv, np.asarray(mod.forward(z), dtype=float).ravel()))
+                    dev, Pm_ = dirv, np.eye(m)
+                else:
+                    lik = D.Gaussian(mod, cov=(cv if m > 1 else float(cv[0]))).to_likelihood(data)
+                    dev, Pm_ = data - Fp(xs), np.diag(1.0 / cv)
+                    if tgt == "likelihood":
+                        obj = lik
+                    else:
+                        pm_ = np.array([dy(rng, -1, 1) for _ in range(n)]); pc = rng.choice([0.5, 1.0, 2.0])
+                        obj = D.Posterior(lik, D.Gaussian(pm_, pc, geometry=dgeo))
+                        extra = -(xs - pm_) / pc
+                    call = lambda obj=obj: obj.gradient(xs)
+                    scalar = lambda z, obj=obj: float(np.asarray(obj.logd(z)).ravel()[0])
+        except Exception as e:  # noqa
+            ctx.note(f"image2d case refused at construction {desc}: {e!r}"[:200]); continue
+        st, exc, val = classify(call, n)
+        bump(f"image2d:{order}:{st}")
+        if st != "value":
+            ctx.disagree(key, desc, "value", f"{st}({exc})", "Image2D is an identity geometry: the gradient must be returned")
+            if st in ("none", "not-vector", "nan"):
+                ctx.fail(key, desc, "gradient vector", st, "no gradient vector for an Image2D domain")
+            continue
+        # Jacobian w.r.t. the pixels listed row-major: column l=(r*w+c) is the parameter column idx(r,c)
+        idx = [(c * h + r) if order == "F" else (r * w + c) for r in range(h) for c in range(w)]
+        Jfun = np.atleast_2d(Jp(xs))[:, idx]
+        ilines.append(f"likimg {order} {h} {w} {qv(dev)} {qm(Jfun)} {qm(Pm_)}")
+        imeta.append((key, desc, extra, val))
+        oracle_value(ctx, key, desc, scalar, val, xs, in_support=True)
+    for (key, desc, extra, val), out in zip(imeta, ctx.lean.drive(ilines)):
+        toks = out.split()
+        mg = (np.array(decv(toks[1])) + extra) if toks[0] == "value" else None
+        if mg is None or not cmp_vec(mg.tolist(), val.tolist(), 1e-8):
+            ctx.disagree(key, desc, out[:120] if mg is None else mg.tolist(), val.tolist(),
+                         "gradient differs from the model (fun2par of the function-space gradient by the geometry's order)")
